@@ -313,6 +313,20 @@ func (in *Interp) doAssert(c *smt.Term, label string) {
 		return
 	}
 	m, r := in.currentModel(in.tb.Not(c))
+	if r == smt.Unknown {
+		// second opinion from the other back ends on the complete query (only unsat is accepted:
+		// a sat answer would need a model in this session to be replayable)
+		asserts := append(append([]*smt.Term{}, in.p.pc...), in.tb.Not(c))
+		for _, be := range []string{"z3-new", "cvc5"} {
+			r2, _ := smt.OneShot(be, in.cfg.TimeoutMS*3, asserts)
+			s.count("fallback_queries:"+be, 1)
+			if r2 == smt.Unsat {
+				r = smt.Unsat
+				s.count("discharged_by:"+be, 1)
+				break
+			}
+		}
+	}
 	switch r {
 	case smt.Unsat:
 		s.mu.Lock()
